@@ -361,9 +361,9 @@ func (t *Tokenizer) tokenizeBuffer(buf []byte, last bool) {
 			t.tmp = append(t.tmp, b)
 		case tokenSpc:
 			t.addToken(string(t.tmp))
-		case tokenColon:
+		case tokenColon: // a byte that ends the token and is then handled in the new mode
 			t.addToken(string(t.tmp))
-			t.mode = valueMap
+			off--
 		case tokenNlColon:
 			t.addToken(string(t.tmp))
 			t.line++
